@@ -2,6 +2,7 @@ package main
 
 import (
 	"go/types"
+	"math/bits"
 	"strconv"
 
 	"golang.org/x/tools/go/ssa"
@@ -103,6 +104,63 @@ func (e *Engine) cryptoIntrinsic(fn *ssa.Function, full string, args []Value) (V
 				return nil, true
 			}
 			return TupleVal{old, mkBool(i >= 0)}, true
+		}
+	case "(*sync.Once).Do":
+		p := args[0].(PtrVal)
+		if e.onceDone[p.slot] {
+			return nil, true
+		}
+		e.onceDone[p.slot] = true
+		e.callFuncVal(args[1].(FuncVal), nil)
+		return nil, true
+	case "internal/bytealg.CompareString", "strings.Compare", "internal/bytealg.Compare", "bytes.Compare":
+		var a, b []*Term
+		toBytes := func(v Value) []*Term {
+			if sv, ok := v.(StrVal); ok {
+				noAtom(sv)
+				return sv.bytes
+			}
+			var out []*Term
+			for _, x := range sliceElems(v.(SliceVal)) {
+				out = append(out, x.(*Term))
+			}
+			return out
+		}
+		a, b = toBytes(args[0]), toBytes(args[1])
+		for i := 0; i < len(a) && i < len(b); i++ {
+			if e.decide(tEq(a[i], b[i])) {
+				continue
+			}
+			if e.decide(tCmp("<", a[i], b[i])) {
+				return mkInt(-1), true
+			}
+			return mkInt(1), true
+		}
+		switch {
+		case len(a) < len(b):
+			return mkInt(-1), true
+		case len(a) > len(b):
+			return mkInt(1), true
+		}
+		return mkInt(0), true
+	case "math/bits.Len", "math/bits.Len64", "math/bits.Len32", "math/bits.Len8", "math/bits.Len16",
+		"math/bits.TrailingZeros", "math/bits.TrailingZeros64", "math/bits.TrailingZeros32", "math/bits.OnesCount", "math/bits.OnesCount64", "math/bits.LeadingZeros64", "math/bits.LeadingZeros":
+		x := args[0].(*Term)
+		if !x.konst {
+			unsupported("%s of a symbolic value", full)
+		}
+		u := uint64(x.iv)
+		switch fn.Name() {
+		case "Len", "Len64", "Len32", "Len16", "Len8":
+			return mkInt(int64(bits.Len64(u))), true
+		case "TrailingZeros", "TrailingZeros64":
+			return mkInt(int64(bits.TrailingZeros64(u))), true
+		case "TrailingZeros32":
+			return mkInt(int64(bits.TrailingZeros32(uint32(u)))), true
+		case "OnesCount", "OnesCount64":
+			return mkInt(int64(bits.OnesCount64(u))), true
+		case "LeadingZeros", "LeadingZeros64":
+			return mkInt(int64(bits.LeadingZeros64(u))), true
 		}
 	case "(*sync.Mutex).Lock", "(*sync.Mutex).Unlock", "(*sync.RWMutex).Lock", "(*sync.RWMutex).Unlock", "(*sync.RWMutex).RLock", "(*sync.RWMutex).RUnlock":
 		return nil, true // one goroutine: locks are no-ops
